@@ -415,7 +415,7 @@ func c05SkipGuards(c *core.Ctx) {
 			if !ok {
 				continue
 			}
-			if r, isRet := b.Instrs[len(b.Instrs)-1].(*ssa.Return); isRet && len(b.Instrs) == 1 && core.IsNilConst(r.Results[0]) {
+			if r, isRet := b.Instrs[len(b.Instrs)-1].(*ssa.Return); isRet && blockDoesNoWork(b) && core.IsNilConst(r.Results[0]) {
 				early = early.Or(cond)
 				n++
 			}
@@ -640,4 +640,31 @@ func c05CommitClears(c *core.Ctx) {
 			c.Check(ok, "config.Commit commits "+strings.TrimSuffix(want, ").Commit"), c.Pos(fn.Pos()), "", "a container is never committed: it reports `changed` forever and every update reloads")
 		}
 	}
+}
+
+// blockDoesNoWork: the block only returns; builtin calls and calls into other modules (a log line) are not work.
+func blockDoesNoWork(b *ssa.BasicBlock) bool {
+	for _, in := range b.Instrs {
+		switch x := in.(type) {
+		case *ssa.Store, *ssa.MapUpdate, *ssa.Defer, *ssa.Go, *ssa.Send:
+			if st, ok := x.(*ssa.Store); ok {
+				if _, local := st.Addr.(*ssa.Alloc); local {
+					continue
+				}
+			}
+			return false
+		case *ssa.Call:
+			if _, isBuiltin := x.Call.Value.(*ssa.Builtin); isBuiltin {
+				continue
+			}
+			if x.Call.IsInvoke() && !strings.Contains(x.Call.Value.Type().String(), core.Module+"/pkg/haproxy") {
+				continue
+			}
+			if callee := x.Call.StaticCallee(); callee != nil && callee.Pkg != nil && !strings.HasPrefix(callee.Pkg.Pkg.Path(), core.Module) {
+				continue
+			}
+			return false
+		}
+	}
+	return true
 }
